@@ -847,3 +847,9 @@ CORPUS += [
     V("C16", "a2c-critic-not-optimised", "rl4co/models/rl/a2c/a2c.py", '        ] + [{"params": self.baseline.parameters(), **self.critic_optimizer_kwargs}]\n', "        ]\n", "C16.b"),
     V("C16", "a2c-no-critic-baseline", "rl4co/models/rl/a2c/a2c.py", "baseline=CriticBaseline(critic)", 'baseline="no"', "C16.b"),
 ]
+
+CORPUS += [
+    V("C06", "op-checker-accepts-repeated-customers", R + "op/env.py", "(sorted_actions[:, 1:] == 0)", "(sorted_actions[:, 1:] != 0)", "C06.i"),
+    V("C06", "pctsp-checker-increase-reversed", _PC, "| (sorted_actions[..., 1:] > sorted_actions[..., :-1])", "| (sorted_actions[..., 1:] < sorted_actions[..., :-1])", "C06.i"),
+    V("C06", "eq-pctsp-checker-increase-mirrored", _PC, "| (sorted_actions[..., 1:] > sorted_actions[..., :-1])", "| (sorted_actions[..., :-1] < sorted_actions[..., 1:])", None),
+]
